@@ -97,8 +97,9 @@ def accounted : List (Name × Name × Name × Name) := [
   (n!"generator/plugins/testdata/testdata_generator.py", n!"<module>", n!"module-object", n!"model.Structure")
 ]
 
-/-- ways of consuming a hash-ordered container whose result cannot depend on the iteration order, wherever they occur -/
-def safeUses : List Name := [n!"sorted", n!"membership", n!"membership-only-via-name", n!"order-insensitive-len", n!"order-insensitive-any",
+/-- ways of consuming a hash-ordered container whose result cannot depend on the iteration order, wherever they occur
+    (`neutralised-at-every-use-via-local-name`: bound once to a local name every read of which is sorted / a membership test / len … — x_nondet.locally_neutralised) -/
+def safeUses : List Name := [n!"sorted", n!"membership", n!"membership-only-via-name", n!"neutralised-at-every-use-via-local-name", n!"order-insensitive-len", n!"order-insensitive-any",
   n!"order-insensitive-all", n!"order-insensitive-bool", n!"order-insensitive-min", n!"order-insensitive-max", n!"order-insensitive-sum"]
 
 def sitesAccounted (sites : List (Name × Name × Name × Name)) : Bool :=
